@@ -91,7 +91,7 @@ PROPS = {
             'value preservation rests on the assumed http::HeaderMap multimap contract (A-http-20..28) and the base64 inverse axioms (A-b64-01: both engines decode padded and unpadded input); the two engine constants of tonic/src/util.rs are checked against that assumption in unit b64cfg (standard alphabet; STANDARD pads, STANDARD_NO_PAD does not; both decode padded and unpadded input)',
             'end-to-end transport of the header block (hyper/h2/hpack)',
             'Keys::next and Values::next are under contract like Iter::next (each key / value is presented on the side its name says); get_all / get_all_bin, GetAll::iter and ValueIter::next are under contract too (every value of the key, in order, never across the partition), for all five key types, and so are get_mut / get_bin_mut, IterMut::next and ValuesMut::next; the entry API is under contract as well (MetadataMap::{entry, entry_bin, generic_entry}, the five AsMetadataKey::entry impls, Entry::{or_insert, or_insert_with, key}, VacantEntry::{key, into_key, insert, insert_entry}, the twelve OccupiedEntry methods, ValueIterMut::next): a typed entry is only ever a handle on a name of its own side and what is written through it is the value given - an http entry is modelled as a handle on the values of one name (A-http-32), so that the map holds those values once the handle is gone is http\'s side (the native witness replay/metadata_witness.rs checks it on examples); the value side is under contract too: Ascii / Binary::{from_shared, is_empty, equals, values_equal}, MetadataValue::{try_from(Bytes), eq, is_empty}, MetadataValue<Ascii>::{len, to_str, as_bytes, from_str}, MetadataValue<Binary>::from_bytes (any bytes make a value - the unwrap cannot fail - whose wire form is their unpadded base64; two values are equal exactly when they denote the same bytes, padded or not); the iterator constructors iter / keys / values / iter_mut / values_mut (each starts with every entry / name of the map), clear, is_empty, reserve and the encoding-agnostic contains_key for all five key types are under contract; ValueDrain::next, the DoubleEndedIterator / IntoIterator impls, capacity, from_static (Binary: a panic plus an unsafe unchecked constructor), the Hash / PartialOrd / cross-type PartialEq impls, MetadataKey FromStr are not under contract',
-            'header names are case-insensitive: in unit metadata a key given as text denotes the entry stored under its lower-case form (A-http-26..28), which is how the upper-case crossing of the partition (fixed: 78630d49) shows up; the suffix test of Binary::is_valid_key is linked to text through a proved lemma (an ASCII suffix of the UTF-8 bytes is an ASCII suffix of the text: lemma_ascii_suffix_utf8, from vstd's UTF-8 theory) and A-core-41 (eq_ignore_ascii_case); the other units look names up by lower-case literals only and keep the simpler contract',
+            'header names are case-insensitive: in unit metadata a key given as text denotes the entry stored under its lower-case form (A-http-26..28), which is how the upper-case crossing of the partition (fixed: 78630d49) shows up; the suffix test of Binary::is_valid_key is linked to text through a proved lemma (an ASCII suffix of the UTF-8 bytes is an ASCII suffix of the text: lemma_ascii_suffix_utf8, from the UTF-8 theory of vstd) and A-core-41 (eq_ignore_ascii_case); the other units look names up by lower-case literals only and keep the simpler contract',
             'the repr(transparent) pointer casts unchecked_from_header_*_ref are trusted (A-tonic-unsafe-01)',
         ]),
     'C05': dict(
